@@ -62,7 +62,7 @@ def fam_ipfix(rng, tier):
 
 
 def fam_cache(rng, tier):
-    return gen.fam_boundaries(rng) + gen.fam_isolation(rng, n(tier, 60, 500)) + gen.fam_rejected_template(rng, n(tier, 60, 400)) + gen.fam_redefine(rng, n(tier, 80, 600), lossless=True) + \
+    return gen.fam_boundaries(rng) + gen.fam_isolation(rng, n(tier, 60, 500)) + gen.fam_rejected_template(rng, n(tier, 60, 400)) + gen.fam_template_noise(rng, n(tier, 60, 400)) + gen.fam_redefine(rng, n(tier, 80, 600), lossless=True) + \
         gen.fam_stream(rng, n(tier, 100, 800), simple_ipfix=True, lossless=True)
 
 
@@ -71,7 +71,7 @@ def fam_c07(rng, tier):
 
 
 def fam_c11(rng, tier):
-    return gen.fam_chain(rng, n(tier, 150, 600)) + (gen.fam_chain(rng, 60, max_pkts=7, all_partitions=True) if tier == "thorough" else [])
+    return gen.fam_chain(rng, n(tier, 150, 600)) + gen.fam_chain_minimal(rng, n(tier, 60, 400)) + (gen.fam_chain(rng, 60, max_pkts=7, all_partitions=True) if tier == "thorough" else [])
 
 
 def fam_c12(rng, tier):
